@@ -1,8 +1,12 @@
 #!/usr/bin/env python3
 """Markdown summary of the mutation sweep results (build/msweep/*.jsonl, or seeded/msweep/*.jsonl when given as argv[1])."""
 import json, glob, os, sys
-d = sys.argv[1] if len(sys.argv) > 1 else os.path.join(os.path.dirname(os.path.dirname(os.path.abspath(__file__))), "build", "msweep")
+d = sys.argv[1] if len(sys.argv) > 1 and not sys.argv[1].startswith("--") else os.path.join(os.path.dirname(os.path.dirname(os.path.abspath(__file__))), "build", "msweep")
 tot = {"mutants": 0, "no-build": 0, "killed-by-tests": 0, "detected": 0, "undetected": 0}
+lines = []
+_print = print
+def print(x):
+    lines.append(x); _print(x)
 print("| file | mutants tried | do not build | killed by the repo's tests | survive the tests, detected by the check(s) | survive both |")
 print("|---|---|---|---|---|---|")
 for f in sorted(glob.glob(os.path.join(d, "*.jsonl"))):
@@ -17,3 +21,12 @@ for f in sorted(glob.glob(os.path.join(d, "*.jsonl"))):
     for k in c:
         tot[k] += c[k]
 print("| **total** | %d | %d | %d | %d | %d |" % (tot["mutants"], tot["no-build"], tot["killed-by-tests"], tot["detected"], tot["undetected"]))
+
+# with --design: also write the table between the markers of DESIGN.md section 9.7
+if "--design" in sys.argv:
+    root = os.path.dirname(os.path.dirname(os.path.abspath(__file__)))
+    dp = os.path.join(root, "DESIGN.md")
+    t = open(dp).read()
+    b, e = "<!-- msweep-table-begin -->", "<!-- msweep-table-end -->"
+    t = t[:t.index(b) + len(b)] + "\n" + "\n".join(lines) + "\n" + t[t.index(e):]
+    open(dp, "w").write(t)
